@@ -328,4 +328,4 @@ class Gen(object):
 
 
 def random_tree(rng, budget=None):
-    return Gen(rng, budget or rng.choice([4, 8, 12, 20, 30])).document()
+    return Gen(rng, budget or rng.choice([3, 5, 8, 12, 16])).document()
